@@ -145,6 +145,8 @@ function(forbidden)
     return ks, vs, n
   end
   function H.newtable() return {} end
+  function H.callv(f, args, n) return pcall(f, unpack(args, 1, n)) end
+  function H.pcall_of(f, a) return pcall(pcall, f, a) end
   return H
 end''')(lua.table_from(forb))
     names = set(HOSTLIBS)
@@ -258,6 +260,28 @@ end''')(lua.table_from(forb))
                                     push(x, "%s(%r,%d)" % (path, js[:30], flags), last + "(json)", depth + 1)
                         except Exception:
                             pass
+            elif last in ("getfenv", "setfenv", "getmetatable", "rawget") and depth < 2 and last in ("getfenv",):
+                # an environment-introspection function in the sandbox (under whatever identity): exercise every
+                # stack level and every reachable function as argument, directly and through pcall (a C frame)
+                for lv in (0, 1, 2, 3, 4, 5, 6):
+                    for via_pcall in (False, True):
+                        stats["capability-calls"] += 1
+                        try:
+                            r = helpers.pcall_of(o, lv) if via_pcall else helpers.call1(o, lv)
+                        except Exception:
+                            continue
+                        if isinstance(r, tuple) and r and r[0]:
+                            for x in r[1:]:
+                                push(x, "%s(%d)%s" % (path, lv, " via pcall" if via_pcall else ""), "getfenv(level)", depth + 1)
+                for fname in ("require", "pcall", "tostring", "next"):
+                    try:
+                        fobj = env[fname]
+                        r = helpers.call1(o, fobj)
+                        if isinstance(r, tuple) and r and r[0]:
+                            for x in r[1:]:
+                                push(x, "%s(%s)" % (path, fname), "getfenv(function)", depth + 1)
+                    except Exception:
+                        pass
             elif last in ("getParent", "newChild") and frame is not None:
                 stats["capability-calls"] += 1
                 try:
@@ -274,6 +298,10 @@ end''')(lua.table_from(forb))
             tname = type(o).__module__ + "." + type(o).__qualname__
             obs.add("python-types-reached", tname)
             allowed_callable = callable(o) and not isinstance(o, type)
+            if isinstance(o, BaseException):
+                # an error VALUE that reached Lua: inert by itself, but everything it carries is reachable
+                allowed_callable = True
+                stats["python-exception-values"] += 1
             if isinstance(o, (tuple, list)):
                 for i, x in enumerate(o):
                     push(x, "%s[%d]" % (path, i), via, depth)
@@ -286,6 +314,21 @@ end''')(lua.table_from(forb))
             elif not allowed_callable:
                 viol.append(("python-object-reachable:%s/via=%s" % (tname, via), "%s at %s" % (tname, path)))
                 continue
+            if callable(o) and not isinstance(o, (type, BaseException)) and depth < 2 and "wikibase" not in path and "wikidata" not in path:
+                # a helper handed to Lua: call it the way hostile code would (missing / wrong-typed / unknown
+                # arguments) and follow both what it returns and the error values it produces
+                title = ctx.title or "Pg"
+                for argv in ((), (title,), (title, 99999), (title, 828), (None,), (helpers.newtable(),), (-1, -1, -1), ("{", 0)):
+                    stats["capability-calls"] += 1
+                    stats["python-helper-calls"] += 1
+                    try:
+                        t = lua.table_from(list(argv))
+                        r = helpers.callv(o, t, len(argv))
+                    except Exception:
+                        continue
+                    if isinstance(r, tuple):
+                        for x in r[1:]:
+                            push(x, "%s%r" % (path, tuple(str(a)[:12] for a in argv)), "helper-call" + ("" if r[0] else "-error-value"), depth + 1)
             # public attributes = exactly what the runtime's attribute_filter admits
             for a in dir(o):
                 if a.startswith("_"):
@@ -343,6 +386,8 @@ end
     add("loader-chunk", "for _, L in ipairs({_new_loader, package and package.loaders and package.loaders[2]}) do for _, n in ipairs({'%s:envprobe', 'envprobe'}) do local ok, f = pcall(L, n) if ok and type(f) == 'function' then local ok2, t = pcall(f) if ok2 and type(t) == 'table' then for k, v in pairs(t) do out = out .. damage(v, 'lc' .. k) end end end end end" % mod_ns)
     add("jsondecode-python-objects", "local ok, t = pcall(mw.text.jsonDecode, '{\\\"1\\\": {\\\"k\\\": \\\"v\\\"}, \\\"2\\\": [1,2]}') if ok and type(t) == 'table' then for k, v in pairs(t) do if type(v) == 'userdata' then out = out .. 'pyobj:' .. tostring(k) .. ';' pcall(function() v.clear() out = out .. 'mutated;' end) pcall(function() out = out .. damage(v.__class__, 'jd') end) end end end")
     add("loader-host-file", "for _, n in ipairs({HOSTLUA, HOSTLUA:gsub('^/', '//'), '..' .. HOSTLUA, 'x/../../../../../../../..' .. HOSTLUA, HOSTLUA:gsub('/', ':')}) do local ok, m = pcall(require, n) if ok and m then out = out .. 'HOSTFILE=' .. tostring(m) .. ';' end local ok2, d = pcall(mw.loadData, n) if ok2 and d then out = out .. 'HOSTFILE=' .. tostring(d) .. ';' end end")
+    add("error-value-objects", "for k, v in pairs(_G) do if type(v) == 'userdata' then for _, a in ipairs({{}, {mw.title.getCurrentTitle().text, 99999}, {1, 2, 3}}) do local ok, e = pcall(v, unpack(a)) if not ok and type(e) == 'userdata' then pcall(function() out = out .. damage(e.obj, 'ev') end) pcall(function() out = out .. damage(e.args, 'eva') end) pcall(function() out = out .. damage(e.__traceback__, 'evt') end) end end end end")
+    add("getfenv-levels", "if getfenv then for lv = 0, 6 do pcall(function() out = out .. damage(getfenv(lv), 'gf' .. lv) end) local ok, g = pcall(getfenv, lv) if ok then out = out .. damage(g, 'gfp' .. lv) end end end")
     add("loaddata-env", "local ok, d = pcall(mw.loadData, '%s:dat') if ok then out = out .. damage(getmetatable(d), 'ldm') end" % mod_ns)
     add("debug-lib", "if debug then for _, n in ipairs({'getinfo','getupvalue','getregistry','sethook','getfenv','setmetatable','getmetatable'}) do if debug[n] then out = out .. 'debug.' .. n .. ';' end end pcall(function() local r = debug.getregistry() out = out .. damage(r, 'reg') end) end")
     add("tostring-userdata", "for k, v in pairs(_G) do if type(v) == 'userdata' then pcall(function() local s = tostring(v) end) pcall(function() local c = mw.clone(v) out = out .. damage(c, 'cl') end) end end")
@@ -461,7 +506,7 @@ def run_shard(spec):
         cap.close()
         return obs
     nviol = 0
-    for j, (env, frame) in enumerate(zip(cap.envs, cap.frames)):
+    for j, (env, frame) in enumerate(list(zip(cap.envs, cap.frames))):   # (the scan itself may trigger nested invokes)
         viol, stats = scan(cap, env, frame, obs, state)
         obs.check("scan-complete")
         for k, v in stats.items():
